@@ -83,12 +83,19 @@ def ou():
                          DLMOD + ":OU_FPENonStatioLoss2D.sigma_mat", DLMOD + ":OU_FPENonStatioLoss2D.diffusion"] + ABS)
 
 
-def glv(n_other, layout, tshape, keys=None, unnamed=()):
+def _read_growth(inp, params):
+    return jnp.concatenate([inp, jnp.reshape(params.eq_params["growth_rate"], (1,))])
+
+
+def glv(n_other, layout, tshape, keys=None, unnamed=(), nets_read_eq=False):
     """unnamed: further populations present in u_dict / params that this equation does not name (a partially coupled
     system): they do not enter the residual"""
     keys = keys or [str(k) for k in range(1 + n_other)]
     def build():
-        nets = {k: Net(f"G{k}", "ODE", 1, 1, positive=True) for k in list(keys) + list(unnamed)}
+        # nets_read_eq: every population's network reads its *own* growth rate through its input transform (a hard-coded
+        # dependence on the equation parameters, as with a hyper-network)
+        nets = {k: Net(f"G{k}", "ODE", 2 if nets_read_eq else 1, 1, positive=True, input_transform=_read_growth if nets_read_eq else None)
+                for k in list(keys) + list(unnamed)}
         u_dict = {k: nets[k].u for k in list(keys) + list(unnamed)}
         def mk_params(ths, growth, inter, cc):
             nn = {k: nets[k].nn_params(ths[i]) for i, k in enumerate(keys)}
@@ -108,8 +115,9 @@ def glv(n_other, layout, tshape, keys=None, unnamed=()):
             return dyn.evaluate(t, u_dict, mk_params(ths, growth, inter, cc))
         def body(t, ths, growth, inter, cc, Tmax, wrong=False):
             tt = t[0] if tshape == (1,) else t[()]
-            N = [nets[k].jet(ths[i])(0, [tt]) for i, k in enumerate(keys)]
-            dN0 = nets[keys[0]].jet(ths[0])(0, [tt], (0,))
+            own = (lambda i: [growth[i if layout == "per-network" else 0]]) if nets_read_eq else (lambda i: [])
+            N = [nets[k].jet(ths[i])(0, [tt] + own(i)) for i, k in enumerate(keys)]
+            dN0 = nets[keys[0]].jet(ths[0])(0, [tt] + own(0), (0,))
             a = [inter[0, j] for j in range(1 + n_other)]
             if wrong and n_other:
                 a = a[1:] + a[:1]
@@ -121,7 +129,8 @@ def glv(n_other, layout, tshape, keys=None, unnamed=()):
                     inputs=[Inp("t", tshape, "unit"), Inp("th", (1 + n_other, 1)), Inp("growth", (1 + n_other,)),
                             Inp("inter", (1 + n_other, 1 + n_other)), Inp("cc", (1 + n_other,)), Inp("Tmax", (), "pos")])
     return EqObligation(f"C02/GeneralizedLotkaVolterra.evaluate/ensures[others={n_other},layout={layout},t={tshape},keys={'/'.join(keys)}"
-                        f"{'' if not unnamed else ',populations_not_named_by_the_equation=' + '/'.join(unnamed)}]", build,
+                        f"{'' if not unnamed else ',populations_not_named_by_the_equation=' + '/'.join(unnamed)}"
+                        f"{',networks_read_their_own_eq_params' if nets_read_eq else ''}]", build,
                         [DLMOD + ":GeneralizedLotkaVolterra.equation", "jinns.loss._DynamicLossAbstract:ODE.evaluate",
                          "jinns.parameters._params:ParamsDict.extract_params"])
 
@@ -266,6 +275,8 @@ def obligations(tier):
     obs.append(glv(2, "shared", (), keys=["m", "z", "a"]))
     obs.append(glv(1, "per-network", (), keys=["a", "b"], unnamed=("c",)))     # a partially coupled system
     obs.append(glv(0, "shared", (), keys=["m"], unnamed=("a", "z")))
+    obs.append(glv(2, "per-network", (), nets_read_eq=True))
+    obs.append(glv(1, "shared", (), nets_read_eq=True))
     for (dx_, B_) in ((1, 2), (2, 2)):      # growth rate given on the grid of a separable network (heterogeneous r)
         o = c11.fisher_grid_r_ob(dx_, B_)
         o.name = o.name.replace("C11/", "C02/")
